@@ -48,7 +48,9 @@ fn check_rep(ctx: &Ctx, q: &Qualifiers, m: &Model, what: &str) {
 
 /// C11: every reachable content over a small universe x every public operation, against a BTreeMap
 pub fn suite_qualmap(ctx: &Ctx, thorough: bool) {
-    let keys: Vec<&str> = if thorough { vec!["a", "A", "b", "a.b", "B", "c_d", "", "!", "é", "a b"] } else { vec!["a", "A", "b", "a.b", "", "!", "é"] };
+    // keys chosen so that prefixes, case variants, upper-case-then-digit, and every ordering-relevant character class
+    // ('-' '.' digit '_' letter) meet each other
+    let keys: Vec<&str> = if thorough { vec!["a", "A", "ab", "a_b", "a.b", "A1", "a-b", "b", "B", "", "!", "é", "a b", "Ab=c"] } else { vec!["a", "A", "ab", "a_b", "a.b", "A1", "", "!", "é", "Ab=c"] };
     let vals: Vec<&str> = vec!["", "x", "y"];
     let valid = |k: &str| refimpl::valid_key(k);
     let mut seen: BTreeSet<Vec<(String, String)>> = BTreeSet::new();
@@ -203,6 +205,16 @@ pub fn suite_qualmap(ctx: &Ctx, thorough: bool) {
                 if Qualifiers::try_from_iter(dup.iter().map(|(k, v)| (k.as_str(), v.as_str()))).is_ok() {
                     ctx.violate("C11.dup", "construction refuses a key repeated in any case", json!(k), "Ok".into(), "Err".into());
                 }
+                // the same through an iterator without an exact size hint, and with the duplicate not adjacent
+                let mut all: Vec<(String, String)> = c.clone();
+                all.push((k.to_ascii_uppercase(), "y".to_string()));
+                if Qualifiers::try_from_iter(all.iter().filter(|_| true).map(|(k, v)| (k.as_str(), v.as_str()))).is_ok() {
+                    ctx.violate("C11.dup", "construction refuses a key repeated in any case (iterator with inexact size hint)", json!(k), "Ok".into(), "Err".into());
+                }
+                match Qualifiers::try_from_iter(c.iter().filter(|_| true).map(|(k, v)| (k.as_str(), v.as_str()))) {
+                    Ok(q) => check_rep(ctx, &q, &m0, "try_from_iter(filter)"),
+                    Err(_) => ctx.violate("C11.dup", "construction from distinct keys succeeds", json!(format!("{c:?}")), "Err".into(), "Ok".into()),
+                }
             }
         }
         if states > if thorough { 200_000 } else { 20_000 } { break; }
@@ -337,7 +349,8 @@ pub fn suite_builder(ctx: &Ctx, thorough: bool) {
 
 // ---- C12: checksum ----
 pub fn suite_checksum(ctx: &Ctx, thorough: bool) {
-    let algs: [&str; 8] = ["a", "A", "b", "a:b", "é", "Æ", "ǅ", "sha-256"];
+    // includes names that are prefixes of one another followed by a character below ':' (sorting whole entries != sorting names)
+    let algs: [&str; 10] = ["a", "A", "a-1", "a:b", "é", "Æ", "ǅ", "sha3", "sha3-256", "a.b"];
     let bytes: [&[u8]; 5] = [b"", b"\x00", b"\xAB", b"\x01\xFF", b"abc"];
     let n = algs.len() * bytes.len();
     let len = if thorough { 4 } else { 3 };
@@ -391,6 +404,7 @@ pub fn suite_checksum(ctx: &Ctx, thorough: bool) {
             match guarded(|| GenericPurl::<String>::builder("t".to_owned(), "n").try_with_typed_qualifier(Some(c.clone())).map(|b| b.build())) {
                 Ok(Ok(Ok(p))) => {
                     if p.qualifiers().get("checksum") != Some(want.as_str()) { ctx.violate("C12.purl", "a PURL carries the one canonical text", inp(), format!("{:?}", p.qualifiers().get("checksum")), want.clone()); }
+                    check_valid(ctx, &format!("{seq:?}"), "builder + typed checksum", &p, true);
                     let back = p.qualifiers().try_get_typed::<Checksum>();
                     match back { Ok(Some(b)) => { for (a, v) in &model { if b.get::<Vec<u8>>(a).ok().flatten().as_deref() != Some(v.as_slice()) { ctx.violate("C12.purl", "typed accessor gives the same entries", inp(), format!("{a:?}"), format!("{v:?}")); } } }, other => ctx.violate("C12.purl", "typed accessor reads the checksum back", inp(), format!("{:?}", other.map(|o| o.is_some())), "Ok(Some)".into()) }
                     // an equivalent spelling (order reversed, upper case, escaped) parses to the same text
